@@ -166,6 +166,8 @@ type authWorld struct {
 	basicChallenged map[string]bool
 	rt              http.RoundTripper
 	latency         func() time.Duration
+	// hostHeader, if set, chooses the Host field of a call's request (default: the URL's host)
+	hostHeader func(urlHost string) string
 }
 
 type callIDKey struct{}
@@ -267,6 +269,11 @@ func (w *authWorld) challenge(h *regHost, demand string) []string {
 	}
 	switch h.mode {
 	case "bearer":
+		return []string{bearer}
+	case "bearer-or-basic":
+		if w.c.Bool("challenge.basic-this-time", 1, 2) {
+			return []string{`Basic realm="http://basic-realm.example/token"`}
+		}
 		return []string{bearer}
 	case "basic":
 		return []string{`Basic realm="registry"`}
@@ -385,7 +392,7 @@ func (w *authWorld) serveRegistry(h *regHost, rw http.ResponseWriter, req *http.
 		}
 		ok()
 	case strings.HasPrefix(auth, "Basic "):
-		if (h.mode == "basic" || h.mode == "both") && o != nil && o.basicU == h.user && o.basicP == h.pass && h.user != "" {
+		if (h.mode == "basic" || h.mode == "both" || h.mode == "bearer-or-basic") && o != nil && o.basicU == h.user && o.basicP == h.pass && h.user != "" {
 			ok()
 			return
 		}
@@ -614,7 +621,13 @@ func (w *authWorld) call(id int, host, required, desired string, withBody, withG
 	method := "GET"
 	var tb *trackedBody
 	u := &url.URL{Scheme: "http", Host: host, Path: "/v2/some/thing"}
-	req := (&http.Request{Method: method, URL: u, Header: http.Header{"X-Demand": {required}, "X-Caller": {"keep-me"}}, Host: host}).WithContext(ctx)
+	hostHeader := host
+	if w.hostHeader != nil {
+		// (a request may name another host in its Host field than the one its URL goes
+		// to - a virtual host, a leftover; where the request goes is what counts)
+		hostHeader = w.hostHeader(host)
+	}
+	req := (&http.Request{Method: method, URL: u, Header: http.Header{"X-Demand": {required}, "X-Caller": {"keep-me"}}, Host: hostHeader}).WithContext(ctx)
 	if withBody {
 		req.Method = "PUT"
 		tb = &trackedBody{data: strings.NewReader("request-body")}
